@@ -355,14 +355,18 @@ def Apart : List In → St → Prop
   | [], _ => True
   | .line l :: rest, m => FreshLine m l ∧ Apart rest (AddrMap.step m (.line l)).1
   | .advance dt :: rest, m => Apart rest (AddrMap.step m (.advance dt)).1
+  | .raw l :: rest, m => FreshLine m l ∧ Apart rest (AddrMap.step m (.raw l)).1
 
-theorem step_ak (m : St) (i : In) (h : AK m) (hf : match i with | .line l => FreshLine m l | .advance _ => True) :
+theorem step_ak (m : St) (i : In) (h : AK m) (hf : match i with | .line l => FreshLine m l | .advance _ => True | .raw l => FreshLine m l) :
     AK (AddrMap.step m i).1 := by
   cases i with
   | advance dt => exact advance_ak m dt h
   | line l =>
     simp only [AddrMap.step]
     exact advance_ak _ 0 (update_ak m l h hf)
+  | raw l =>
+    simp only [AddrMap.step]
+    exact update_ak m l h hf
 
 theorem final_ak (hs : List In) (m : St) (h : AK m) (ha : Apart hs m) : AK (final hs m) := by
   induction hs generalizing m with
@@ -371,6 +375,7 @@ theorem final_ak (hs : List In) (m : St) (h : AK m) (ha : Apart hs m) : AK (fina
     cases i with
     | line l => exact ih _ (step_ak m (.line l) h ha.1) ha.2
     | advance dt => exact ih _ (step_ak m (.advance dt) h trivial) ha
+    | raw l => exact ih _ (step_ak m (.raw l) h ha.1) ha.2
 
 /-- **C20 (lookup by address).**  After any history of address-map lines and clock advances in which no line gives a
     name an address another known name holds, looking an address up returns exactly the spec's answer: the live latest
